@@ -185,6 +185,15 @@ def cmp_table(rep, F, rule='ORDER-TABLE'):
                     if c[0] == 'eq':
                         fits = (c[1] == 1)
                 continue
+            md = re.match(r'^discr\(%s\)$' % SIGNX, s)
+            if md:
+                # a `match` on a sign: the NoSign arm is the both-zero row (the signs are already known to be equal), any
+                # other arm establishes a non-zero operand
+                if c == ('eq', 1):
+                    same_nonzero = -2 if same_nonzero >= 0 else same_nonzero
+                    continue
+                if (c[0] == 'eq' and c[1] in (0, 2)) or (c[0] == 'notin' and 1 in c[1]):
+                    same_nonzero |= 2
             sa = _sign_atom(s, c)
             if sa is not None:
                 signs &= sa
